@@ -66,7 +66,7 @@ type CaseC06Static struct {
 var c06RTRec = vt.NewRecorder("C06", "TestC06Realtime",
 	"realtime targets with >=3 id-bearing vehicles, alerts naming >=2 fallback routes, elevator alert groups and NYCT trips, x extension configuration {Extension nil, explicit no-op, NYCT trips 2x2, NYCT alerts 4x2x2x2} "+
 		"x a generated history of 0-4 earlier messages (same generator, so elevator ids recur) parsed through the SAME options/extension object. Oracle (differential): 8 parses with fresh options agree in content AND order of every slice; "+
-		"the parse after the history with the shared object equals the parse with a fresh equivalent object; the input buffer is unchanged; (driver) the per-case digests of a second process run with the same seed are identical. "+
+		"the parse after the history with the shared object equals the parse with a fresh equivalent object; the input buffer is unchanged; (driver) a second process runs the same seed but executes only every other case; the digests of the cases both executed must be identical (cross-process determinism and freedom from state left behind by other cases, whatever their options). "+
 		"Non-trivial = the result has >=2 items in a map-built collection (vehicles with id, route-level informed entities) or the history is non-empty with a stateful extension")
 
 var c06StaticRec = vt.NewRecorder("C06", "TestC06Static",
@@ -83,6 +83,22 @@ var (
 	digestFile *os.File
 )
 
+var c06Index = map[string]int{}
+
+// c06Skip numbers the cases of a test and reports whether this process leaves the case out. The driver runs the same seed
+// in two processes; the second one (VERIF_DIGEST_SUBSET set) executes only every other case, so state that an executed case
+// leaves behind in the library (a package-level cache, say) reaches different cases in the two processes and shows up as a
+// digest difference on the cases both executed.
+func c06Skip(test string) (int, bool) {
+	digestMu.Lock()
+	defer digestMu.Unlock()
+	c06Index[test]++
+	idx := c06Index[test]
+	return idx, os.Getenv("VERIF_DIGEST_SUBSET") != "" && idx%2 == 0
+}
+
+var c06Current = map[string]int{}
+
 func writeDigest(test string, caseFP, resultFP uint64) {
 	p := os.Getenv("VERIF_DIGEST_OUT")
 	if p == "" {
@@ -97,7 +113,7 @@ func writeDigest(test string, caseFP, resultFP uint64) {
 		}
 		digestFile = f
 	}
-	fmt.Fprintf(digestFile, "%s %016x %016x\n", test, caseFP, resultFP)
+	fmt.Fprintf(digestFile, "%s %d %016x %016x\n", test, c06Current[test], caseFP, resultFP)
 }
 
 const c06Repeats = 8
@@ -265,6 +281,11 @@ func TestC06Realtime(t *testing.T) {
 		if fb >= 2 {
 			cls = append(cls, ">=2-fallback-routes")
 		}
+		idx, skip := c06Skip("TestC06Realtime")
+		if skip {
+			return
+		}
+		c06Current["TestC06Realtime"] = idx
 		c06RTRec.Eval(cls...)
 		if idVehicles >= 2 || fb >= 2 || (nh > 0 && (ext.Kind == "nyctalerts" || ext.Kind == "nycttrips")) {
 			c06RTRec.NontrivialCase(vt.Fingerprint(c), func() any { return c })
@@ -294,6 +315,11 @@ func TestC06Static(t *testing.T) {
 			}
 		}
 		cls := fmt.Sprintf("services=%d", min(len(services), 6))
+		idx, skip := c06Skip("TestC06Static")
+		if skip {
+			return
+		}
+		c06Current["TestC06Static"] = idx
 		c06StaticRec.Eval(cls)
 		if len(services) >= 3 {
 			c06StaticRec.NontrivialCase(vt.Fingerprint(c), func() any {
